@@ -137,6 +137,16 @@ pub fn replay(case: &Value) -> Vec<Obs> {
     // now and searched only after the limit of the LAST query has passed (nothing is built or started in between, so
     // nothing clears the flag) must still find everything.
     if bad.is_none() && !cbs.iter().any(|(t, _, _)| *t == nq) {
+        // (the last report before the pause is a "No more." of solve(): a fast query asked one answer at a time)
+        {
+            let query = make_query(vec![atom("fast"), var("$X"), var("$Y")]);
+            let sn = make_base_node(Rc::new(query), &kb);
+            let mut got: Vec<String> = vec![];
+            for _ in 0..6 { let r = solve(Rc::clone(&sn)); let end = r == "No more."; got.push(r); if end { break; } }
+            let mut want: Vec<String> = FAST_ANSWERS.iter().map(|s| s.to_string()).collect(); want.push("No more.".into());
+            if got != want { bad = Some(format!("a fast query asked with solve() reported {:?} instead of {:?}", got, want)); }
+            log.push_str(" | solve() x5 -> No more.");
+        }
         let query = make_query(vec![atom("fast"), var("$X"), var("$Y")]);
         let sn = make_base_node(Rc::new(query), &kb);
         std::thread::sleep(std::time::Duration::from_millis(1250));
